@@ -77,6 +77,14 @@ def compiled_functor_table(arith_src):
             if (name, arity) in rows:
                 raise ExtractError("duplicate arm %s/%d" % (name, arity))
             rows[(name, arity)] = (variant, order)
+    # operands are popped from the compile-time stack last-first: `let a2 = pop; let a1 = pop`
+    body = fn_body(arith_src, r"fn instr_from_clause\s*\(")
+    pops = re.findall(r"let (a\d) = self\.interm\.pop\(\)", body)
+    if pops != ["a1", "a2", "a1"]:
+        raise ExtractError("instr_from_clause pops its operands in an unexpected order: %s" % pops)
+    calls = re.findall(r"self\.get_(unary|binary)_instr\(name, ([^)]*)\)", body)
+    if calls != [("unary", "a1, arg"), ("binary", "a1, a2, arg")]:
+        raise ExtractError("instr_from_clause passes unexpected operands: %s" % calls)
     consts = {}
     body = fn_body(arith_src, r"fn push_literal\s*\(")
     for m in re.finditer(r'Literal::Atom\(name\) if name == &atom!\("(\w+)"\)\s*=>\s*interm\.push\(ArithmeticTerm::Number\(\s*Number::Float\(OrderedFloat\(([\w:]+)\)\)', body):
